@@ -55,7 +55,9 @@ pub struct XRefTable {
 
 impl XRefTable {
     pub fn new(num_objects: ObjNr) -> XRefTable {
-        let mut entries = Vec::new();
+        // one allocation of the final size: `resize` to exactly `num_objects` followed by a `push` doubled
+        // the buffer (48 MB instead of 24 MB for the largest /Size that is accepted)
+        let mut entries = Vec::with_capacity(num_objects as usize + 1);
         entries.resize(num_objects as usize, XRef::Invalid);
         entries.push(XRef::Free { next_obj_nr: 0, gen_nr: 0xffff });
         XRefTable {
